@@ -118,7 +118,7 @@ def E4(inp, N, n=2):
     """win: a node becomes leader on a response_vote only as candidate, for its current term, with
     votes+1 a strict majority; then nextIndex=last+1, matchIndex=0, own-term no-op appended."""
     o, tr, now = _mk(inp, N)
-    p = so.sym_state(inp, o, now, n, term_hi=T_HI)
+    p = so.sym_state(inp, o, now, n, term_hi=T_HI, stale_tables=True)      # a candidate may have been leader before
     sender = p.others[inp.choice('sender', len(p.others))]
     mterm = inp.int('mterm', 0, T_HI + 1)
     _, exc = guard(getattr(o, so.P + 'onMessageReceived'), sender, {'type': 'response_vote', 'term': mterm})
